@@ -186,9 +186,16 @@ func runRegistry(a *Analyzer, r *Results) {
 				ifi, isIf := b.Instrs[len(b.Instrs)-1].(*ssa.If)
 				for si, sx := range b.Succs {
 					ok2 := ok
-					if isIf && si == 1 {
-						if t := unfreeze(c.Term(ifi.Cond)); t.Key() == olderKey {
-							ok2 = true // the watermark is not older than the argument
+					if isIf {
+						// does taking this edge imply "the watermark is not older than the argument"? It does when the
+						// condition, evaluated with "older" assumed true, is forced to the other truth value
+						// (covers the bare test, named booleans, nil-guards joined with || / &&, inverted forms)
+						t := unfreeze(c.Term(ifi.Cond))
+						v := evalBool(t, func(at *Atom) bool {
+							return at.Pred == "truth" && !at.Neg && len(at.Args) == 1 && at.Args[0].Key() == olderKey
+						})
+						if (si == 1 && v == 1) || (si == 0 && v == -1) {
+							ok2 = true
 						}
 					}
 					walk(sx, ok2)
@@ -392,11 +399,35 @@ func (ig *ingest) roundRules(e *Effect) {
 			}
 		}
 		ev.Verdict("H6.cb.height", props("C13"), "the height reported to the new-round callback is the height this round has just set (not a later re-read that a nested round may already have advanced)", "", okH, "height argument is "+PP(ev.Arg(1)))
-	case e.Kind == "call" && e.Name == "leanhelix.onNewConsensusRound" && len(e.Args) == 4 && e.Entry == idE4 && len(e.Path) == 1:
+	case e.Kind == "call" && e.Entry == idE4 && len(e.Path) == 1 && ig.startsRound(e):
+		// the call by which the sync handler starts a round (whatever it is called and however its arguments are
+		// packed): the synced block is its interfaces.Block argument or the block field of its *blockWithProof
+		// argument, canBeFirstLeader its bool argument
 		ev := a.NewEval(e, ig.r)
-		blk := ev.Arg(1)
+		var blk, first *Term
+		if ci, ok := e.Instr.(ssa.CallInstruction); ok {
+			if sc := ci.Common().StaticCallee(); sc != nil {
+				for i, p := range sc.Params {
+					if i >= len(e.Args) {
+						break
+					}
+					switch ts := typeShort(p.Type()); {
+					case ts == "interfaces.Block":
+						blk = ev.Arg(i)
+					case ts == "leanhelix.blockWithProof":
+						blk = Field(ev.Arg(i), "block")
+					case isBoolType(p.Type()):
+						first = ev.Arg(i)
+					}
+				}
+			}
+		}
+		if blk == nil || first == nil {
+			ev.Verdict("U1", props("C14", "C13"), "a synced block starts a new round only if its height is at or above the current height", "", false, "cannot identify the synced block / first-leader flag among the arguments of "+e.Name)
+			break
+		}
 		ev.Require("U1", props("C14", "C13"), "a synced block starts a new round only if its height is at or above the current height", "", Le(k.SHeight, Call("blockheight.GetBlockHeight", blk)))
-		ev.Verdict("U2", props("C14"), "a round entered by sync never lets this node be the first leader", "", ev.Arg(3).Key() == tFalse.Key(), "canBeFirstLeader argument is "+PP(ev.Arg(3)))
+		ev.Verdict("U2", props("C14"), "a round entered by sync never lets this node be the first leader", "", first.Key() == tFalse.Key(), "canBeFirstLeader argument is "+PP(first))
 		// exactness: no stronger test on the accept path
 		var extra []string
 		for _, key := range ev.facts.SortedKeys() {
@@ -548,7 +579,7 @@ func runLoops(a *Analyzer, r *Results) {
 			for _, b := range ev.Find(Done(Call("state.CancelOlderThan", vc, Var("hv")))) {
 				hvT := b["hv"]
 				hh := unfreeze(Field(hvT, "height"))
-				okH := hh.Key() == Bin("+", Call("interfaces.Height", blk), Const("1")).Key() || hh.Key() == Bin("+", Const("0"), Const("1")).Key() || hh.Key() == Const("1").Key()
+				okH := isSyncedHeightPlusOne(hh, blk)
 				if okH && Field(hvT, "view").Key() == Const("0").Key() && ev.Has(ErrNil(Ext(1, Call("state.For", vc, hvT)))) != nil {
 					okAny = true
 				} else if !okAny {
@@ -671,7 +702,7 @@ func runShutdown(a *Analyzer, r *Results) {
 				}
 				li := a.Loops(fn)
 				l := li.Innermost(sel.Block())
-				leaves := l == nil || leavesLoop(armBlk, l, fn.Name() == "run")
+				leaves := l == nil || leavesLoop(armBlk, l, false) || leavesLoop(armBlk, l, true) // directly (return / break), or through the flag the loop condition tests
 				r.Check("Z1.exit", props("C16"), "the ctx.Done arm leaves the event loop", shortName(fn), a.P.InstrPos(in), leaves, "the ctx.Done arm continues the loop", "P")
 				if fn.Name() == "Run" {
 					// Z2: on the way out the current term is disposed -> ElectionScheduler.Stop
@@ -691,7 +722,27 @@ func runShutdown(a *Analyzer, r *Results) {
 								return false
 							}
 						}
-						for _, s := range b.Succs {
+						// "no current term" needs no disposal: the edge on which the term pointer is nil is exempt
+						skip := -1
+						if ifi, isIf := b.Instrs[len(b.Instrs)-1].(*ssa.If); isIf {
+							if bo, isBin := ifi.Cond.(*ssa.BinOp); isBin && (bo.Op == token.NEQ || bo.Op == token.EQL) {
+								x, y := bo.X, bo.Y
+								if c, isC := x.(*ssa.Const); isC && c.IsNil() {
+									x, y = y, x
+								}
+								if c, isC := y.(*ssa.Const); isC && c.IsNil() && strings.Contains(typeShort(x.Type()), "LeanHelixTerm") {
+									if bo.Op == token.NEQ {
+										skip = 1
+									} else {
+										skip = 0
+									}
+								}
+							}
+						}
+						for si, s := range b.Succs {
+							if si == skip {
+								continue
+							}
 							if !walk(s) {
 								return false
 							}
@@ -1256,4 +1307,70 @@ func evalConcrete(t *Term, env map[string]int) (int, bool) {
 		}
 	}
 	return 0, false
+}
+
+// isSyncedHeightPlusOne: t == height(block)+1 where height(block) is 0 for a nil block and block.Height() otherwise, in
+// any of the forms the builder produces: resolved per case split (Height(b)+1, 0+1, 1) or as one conditional value
+// (a helper or a local that computes "0 if nil else Height()").
+func isSyncedHeightPlusOne(t, blk *Term) bool {
+	hOf := Call("interfaces.Height", blk)
+	if t.Key() == Const("1").Key() {
+		return true
+	}
+	var rest *Term
+	if t.Op == "bin" && t.Name == "+" && len(t.Args) == 2 {
+		switch {
+		case t.Args[0].Key() == Const("1").Key():
+			rest = t.Args[1]
+		case t.Args[1].Key() == Const("1").Key():
+			rest = t.Args[0]
+		}
+	}
+	if rest == nil {
+		return false
+	}
+	rest = unfreeze(rest)
+	if rest.Key() == hOf.Key() || rest.Key() == Const("0").Key() {
+		return true
+	}
+	if rest.Op == "ite" && len(rest.Args) == 3 {
+		c, x, y := rest.Args[0], rest.Args[1], rest.Args[2]
+		isNilTest := func(c *Term) (bool, bool) { // (is a nil test of blk, polarity: true = "blk == nil")
+			neg := false
+			for c.Op == "un" && c.Name == "!" && len(c.Args) == 1 {
+				c, neg = c.Args[0], !neg
+			}
+			if c.Op == "bin" && (c.Name == "==" || c.Name == "!=") && len(c.Args) == 2 {
+				l, r := unfreeze(c.Args[0]), unfreeze(c.Args[1])
+				if (l.Key() == blk.Key() && r.Key() == tNil.Key()) || (r.Key() == blk.Key() && l.Key() == tNil.Key()) {
+					pol := c.Name == "=="
+					if neg {
+						pol = !pol
+					}
+					return true, pol
+				}
+			}
+			return false, false
+		}
+		if ok, isNil := isNilTest(c); ok {
+			if isNil {
+				return x.Key() == Const("0").Key() && unfreeze(y).Key() == hOf.Key()
+			}
+			return y.Key() == Const("0").Key() && unfreeze(x).Key() == hOf.Key()
+		}
+	}
+	return false
+}
+
+// startsRound: the effect is a static call of a library function from which the term constructor is reachable.
+func (ig *ingest) startsRound(e *Effect) bool {
+	ci, ok := e.Instr.(ssa.CallInstruction)
+	if !ok {
+		return false
+	}
+	sc := ci.Common().StaticCallee()
+	if sc == nil || !ig.a.P.IsLib(sc) || funcPkgPath(sc) != modPath {
+		return false
+	}
+	return reachesFn(ig.a, sc, "services/leanhelixterm.NewLeanHelixTerm", map[*ssa.Function]bool{})
 }
